@@ -90,6 +90,10 @@ func detPool(inc string, yield func()) []pongo2.Context {
 	swapped["z_ints"] = [3]int{3, 1, 2}
 	swapped["z_int"] = 42.0
 	swapped["z_stringer"] = &ZPStr{V: "Cc"}
+	// computed include names differ between the contexts of one history / between concurrent executions
+	if inc != "" {
+		pool1["incname"], swapped["incname"] = "/alt.tpl", "/alt.tpl"
+	}
 	return []pongo2.Context{pool0, pool1, swapped, nil, pool4, pool5}
 }
 
@@ -148,6 +152,7 @@ func detProgram(r *Rng) detProg {
 		inc = "/part.tpl"
 	}
 	files["/main.tpl"] = main
+	files["/alt.tpl"] = "alt:{{ s }}{{ n }}{% cycle \"p\" \"q\" %}"
 	return detProg{main: main, files: files, inc: inc}
 }
 
